@@ -187,13 +187,14 @@ pub fn audit(ex: &mut Exec) -> R<()> {
                 // the bytes must be the ones written for that key and version (if the model still knows it)
                 if let Some(ws) = ex.model.writes.get(&key) {
                     if let Some(w) = ws.iter().find(|w| w.seqno == it.key.seqno) {
-                        let expect = match ex.model.rewrites.get(&(key.clone(), w.seqno)) {
-                            Some((Kind::Val(v), _)) => Some(v.clone()),
-                            Some(_) => None,
-                            None => match &w.kind {
-                                Kind::Val(v) => Some(v.clone()),
-                                _ => None,
-                            },
+                        let expect = match ex.model.effective_kind(&key, w, u64::MAX) {
+                            Kind::Val(v) => Some(v),
+                            _ => None,
+                        };
+                        // an older snapshot may still need the pre-rewrite bytes: accept either
+                        let expect_old = match &w.kind {
+                            Kind::Val(v) => Some(v.clone()),
+                            _ => None,
                         };
                         let plain = if lz4 && fr.disk_len != fr.real_len || lz4 {
                             lz4_flex::decompress(&fr.payload, fr.real_len as usize)
@@ -202,7 +203,7 @@ pub fn audit(ex: &mut Exec) -> R<()> {
                             fr.payload.clone()
                         };
                         if let Some(e) = expect {
-                            if e != plain && e != fr.payload {
+                            if e != plain && e != fr.payload && expect_old.as_ref() != Some(&plain) {
                                 return Err(format!(
                                     "pointer of key {} seqno {} resolves to bytes that were not written for that version",
                                     hex(&key),
